@@ -14,8 +14,10 @@ mod rdfa;
 mod runner;
 mod rx;
 mod smtref;
+mod spec;
 mod tape;
 
+mod p_auto;
 mod p_c01;
 mod p_c02;
 mod p_c03;
@@ -43,6 +45,9 @@ fn registry() -> Vec<Prop> {
         Prop { id: "C01", run: p_c01::run, tape_len: 150, enumerate: None },
         Prop { id: "C02", run: p_c02::run, tape_len: 150, enumerate: None },
         Prop { id: "C03", run: p_c03::run, tape_len: 150, enumerate: None },
+        Prop { id: "C04", run: p_auto::run_c04, tape_len: 160, enumerate: None },
+        Prop { id: "C13", run: p_auto::run_c13, tape_len: 160, enumerate: None },
+        Prop { id: "C14", run: p_auto::run_c14, tape_len: 160, enumerate: None },
         Prop { id: "C05", run: p_c05::run_c05, tape_len: 120, enumerate: None },
         Prop { id: "C18", run: p_c05::run_c18, tape_len: 120, enumerate: None },
         Prop { id: "C19", run: p_c05::run_c19, tape_len: 120, enumerate: None },
